@@ -758,7 +758,8 @@ def rule_determinism(ctx):
         if b.crate not in ('pie', 'pie_graph') or b.is_test_code():
             continue
         for c in b.find_calls(lambda c: c.qname.startswith('core::slice::sort')):
-            known = b.name in ('sort_by_dependencies', 'reorder_nodes')
+            # a sort whose key / comparator was decided by its own rule: Q1-comparator (the queue) or N3-sort-key (the reordering step)
+            known = any(o['ok'] and o['rule'] in ('Q1-comparator', 'N3-sort-key') and (o['key'] == b.path or o['key'].startswith(b.path + '#')) for o in R.obs)
             elem = c.gargs[0] if c.gargs else ''
             plain = c.qname in ('core::slice::sort', 'core::slice::sort_unstable') and elem in ('u32', 'u64', 'usize')
             R.ob('N3-sorts', b.path + '#' + c.name, known or plain, 'sort over unique ranks' if known or plain else 'sort %s over %s is not one of the analysed rank sorts' % (c.qname, elem), ctx.where(b, c.bb), props=P)
